@@ -410,10 +410,12 @@ impl Evaluatable for Value {
             Self::Identifier(id) => ctx.lookup(id).and_then(|x| x.value_of(ctx)),
             Self::OpCall(f) => f.call(ctx),
             // the members of an array or tuple belong to the scope the literal is evaluated in: resolve them here, not
-            // later in the scope of whoever picks a member out (`let x=1 in let t=(x,2) in let x="s" in t.0` is 1)
+            // later in the scope of whoever picks a member out (`let x=1 in let t=(x,2) in let x="s" in t.0` is 1).
+            // array members are typed by what they evaluate to (real_type_of), so they are evaluated the same way:
+            // `let h="a" in "a" _: [h]` compares "a" with "a", not with the binding of h
             Self::Array(a) => Ok(Self::Array(Arc::new(
                 a.iter()
-                    .map(|x| x.value_of(ctx.clone()))
+                    .map(|x| x.real_value_of(ctx.clone()))
                     .collect::<Result<Vec<_>, _>>()?,
             ))),
             Self::Tuple(t) => Ok(Self::Tuple(Arc::new(
